@@ -112,6 +112,22 @@ def _dup(tr, cfg):
         tr["skipped"] = "duplicate floats in store"
 
 
+_GB = {}
+
+
+def _gb(cfg):
+    """the draw function of a case: plain get_batch, or - cfg["jit"] - ONE compiled get_batch re-used for every draw of the history
+    (int32 cursor arithmetic, traced conditions: what jinns.solve runs)"""
+    if not cfg.get("jit"):
+        return lambda g: g.get_batch()
+    f = _GB.get(id(cfg))
+    if f is None:
+        import jax
+        _GB.clear()
+        f = _GB[id(cfg)] = jax.jit(lambda g: g.get_batch())
+    return f
+
+
 def _mask(p, n):
     if p is None:
         return [True] * n
@@ -147,7 +163,7 @@ def case_ode(cfg):
         "times", req=n, b=b, neff=(cfg["nstart"] if rar else n), init=reg.ids(times), cur0=int(g.curr_time_idx),
         inDom=[bool(dt(lo) <= v <= dt(hi)) for v in times], shape=list(times.shape), mask=_mask(g.p_times, len(times))))
     for _ in range(cfg["draws"]):
-        g, batch = g.get_batch()
+        g, batch = _gb(cfg)(g)
         tb = _np(batch.temporal_batch)
         tr["ev"].append(_event([_evst(g.curr_time_idx, reg.ids(_np(g.times)), reg.ids(tb))], shapes=dict(t=list(tb.shape))))
     return tr
@@ -179,6 +195,12 @@ def _border_store(g, cfg, dim, lo, hi):
     return st, reg, facet_regs
 
 
+def _flag(cfg):
+    """the product / pairing flag as the user may hand it over: a Python bool, a numpy bool or an integer"""
+    v = bool(cfg.get("cart", True))
+    return {"bool": v, "np": np.bool_(v), "int": int(v)}[cfg.get("cartform", "bool")]
+
+
 def _mk_pde(cfg, nonstatio):
     import jax
     from jinns.data._DataGenerators import CubicMeshPDEStatio, CubicMeshPDENonStatio
@@ -192,7 +214,7 @@ def _mk_pde(cfg, nonstatio):
     if nonstatio:
         tlo, thi = cfg.get("tbox", [0.0, 1.0])
         kw.update(nt=cfg["nt"], temporal_batch_size=cfg["bt"], tmin=float(tlo), tmax=float(thi),
-                  cartesian_product=cfg.get("cart", True), nt_start=cfg.get("ntstart") if rar else None)
+                  cartesian_product=_flag(cfg), nt_start=cfg.get("ntstart") if rar else None)
         return CubicMeshPDENonStatio(**kw)
     return CubicMeshPDEStatio(**kw)
 
@@ -229,7 +251,7 @@ def case_statio(cfg):
         _dup(tr, cfg)
         return tr
     for _ in range(cfg["draws"]):
-        g, batch = g.get_batch()
+        g, batch = _gb(cfg)(g)
         xb = _np(batch.inside_batch)
         st = [_evst(g.curr_omega_idx, reg_o.ids(list(_np(g.omega))), reg_o.ids(list(xb)))]
         shapes = dict(inside=list(xb.shape))
@@ -277,7 +299,7 @@ def case_nonstatio(cfg):
         _dup(tr, cfg)
         return tr
     for _ in range(cfg["draws"]):
-        g, batch = g.get_batch()
+        g, batch = _gb(cfg)(g)
         tx = _np(batch.times_x_inside_batch)
         inside = [[reg_t.id(r[0]), reg_o.id(r[1:])] for r in tx]
         st = [_evst(g.curr_omega_idx, reg_o.ids(list(_np(g.omega))))]
@@ -357,7 +379,7 @@ def case_obs(cfg):
     tr["stores"].append(_store("indices", req=n, b=cfg["b"], neff=n, init=[int(v) + 1 for v in _np(g.indices)],
                                cur0=int(g.curr_idx), inDom=[True] * n, shape=[n], mask=[True] * n))
     for _ in range(cfg["draws"]):
-        g, batch = g.get_batch()
+        g, batch = _gb(cfg)(g)
         tr["ev"].append(_event([_obs_project(g, batch, regs, cfg["b"])]))
     return tr
 
@@ -401,7 +423,7 @@ def case_multiobs(cfg):
                                    init=[int(v) + 1 for v in _np(sub.indices)], cur0=int(sub.curr_idx), inDom=[True] * n,
                                    shape=[n], mask=[True] * n))
     for _ in range(cfg["draws"]):
-        g, batches = g.get_batch()
+        g, batches = _gb(cfg)(g)
         st = []
         empty_ok = set(batches.keys()) == {f"u{j}" for j in range(len(nets))}
         for j, n in enumerate(nets):
@@ -458,7 +480,7 @@ def case_param(cfg):
                                    cur0=int(g.curr_param_idx[k]), inDom=indom, shape=list(stored.shape), mask=[True] * stored.shape[0],
                                    userTable=(k in tables)))
     for _ in range(cfg["draws"]):
-        g, batch = g.get_batch()
+        g, batch = _gb(cfg)(g)
         st = []
         for k in names:
             bt = _np(batch[k])
